@@ -93,6 +93,110 @@ def gen_scenario(rng, magic, nmax=6):
     return {"S": S, "k": k, "fanout": rng.choice([1, 2, n, n + 1, 32]), "cmdtmo": 0, "hosts": hosts}
 
 
+def mk_host(chan, outcome, delay=0, **kw):
+    h = {"chan": chan, "outcome": outcome, "out": b"", "pre": b"", "late": b"", "delay": delay}
+    h.update(kw)
+    return h
+
+
+SYS_OUTCOMES = [("exited", 0), ("exited", 3), ("exited", 255), ("killed", 9), ("cf", 0)]
+
+
+def systematic_scenarios():
+    """run in EVERY quick run, no randomness: for each of {-S, -k, neither, both} and each status channel
+    (in-band marker / out-of-band wait status): every ordered pair of outcomes over {rc 0, rc n, rc 255 (> 254), killed by
+    a signal, connect failure} in both completion orders; three targets with ONE failing target in every position, run
+    in parallel (fanout 32, the failing one finishing last / first) and one after the other (fanout 1); mixed channels"""
+    out = []
+    for S, k in ((1, 0), (0, 1), (0, 0), (1, 1)):
+        for chan in ("inband", "exec"):
+            for a in SYS_OUTCOMES:
+                for b in SYS_OUTCOMES:
+                    for da, db in ((0, 8), (8, 0)):
+                        out.append({"S": S, "k": k, "fanout": 32, "cmdtmo": 0,
+                                    "hosts": [mk_host(chan, a, da), mk_host(chan, b, db)]})
+            for bad in SYS_OUTCOMES[1:]:
+                for pos in range(3):
+                    for fanout, dbad, dok in ((32, 8, 0), (32, 0, 8), (1, 0, 0)):
+                        hosts = [mk_host(chan, ("exited", 0), dok) for _ in range(3)]
+                        hosts[pos] = mk_host(chan, bad, dbad)
+                        out.append({"S": S, "k": k, "fanout": fanout, "cmdtmo": 0, "hosts": hosts})
+        for a in SYS_OUTCOMES[1:]:          # one channel each
+            out.append({"S": S, "k": k, "fanout": 32, "cmdtmo": 0, "hosts": [mk_host("inband", a), mk_host("exec", ("exited", 0))]})
+            out.append({"S": S, "k": k, "fanout": 32, "cmdtmo": 0, "hosts": [mk_host("exec", a), mk_host("inband", ("exited", 0))]})
+    return out
+
+
+def systematic_canceled():
+    """canceled targets (DSH_CANCELED: the command never ran) in every position next to every other outcome, all four
+    flag combinations"""
+    others = ["c1,o-,v0,d0,t0", "c1,o-,v3,d0,t0", "c1,o-,v255,d0,t0", "c0,o-,v0,d0,t0", "c1,o-,v0,d8,t0"]
+    out = []
+    for S, k in ((1, 0), (0, 1), (0, 0), (1, 1)):
+        out.append("dsh %d %d 32 0 x1" % (S, k))
+        out.append("dsh %d %d 32 0 x1;x1" % (S, k))
+        for o in others:
+            for fan in (1, 32):
+                out.append("dsh %d %d %d 0 x1;%s" % (S, k, fan, o))
+                out.append("dsh %d %d %d 0 %s;x1" % (S, k, fan, o))
+                out.append("dsh %d %d %d 0 %s;x1;%s" % (S, k, fan, others[0], o))
+    return out
+
+
+def systematic_timeouts():
+    """-u 1, every kind of overdue command: idle (the watchdog's SIGALRM interrupts the worker) or chatty (the worker
+    notices the expiry itself at the top of its poll loop) x dies on TERM / traps TERM and exits 0 / 255, in first and
+    last position, under -S; plus -k and plain"""
+    out = []
+    i = 0
+    for kind in ("idle", "chatty"):
+        for end in ("d", ("e", 0), ("e", 255)):
+            for S, k in ((1, 0),) + (((0, 1), (0, 0)) if end == "d" else ()):
+                hosts = [mk_host("exec", ("exited", 0)), mk_host("exec", ("exited", 0))]
+                hosts[i % 2] = mk_host("exec", ("to", 0), tmo={"kind": kind, "end": end})
+                i += 1
+                out.append({"S": S, "k": k, "fanout": 32, "cmdtmo": 1, "hosts": hosts})
+    return out
+
+
+def systematic_cli():
+    """through the real binary, every quick run: -k / -S / both / neither x an out-of-band failure (code, 255, signal)
+    in first and last position; a command that ends after closing its streams; overdue commands of each kind under -S"""
+    out = []
+    ex = lambda o, **kw: mk_host("exec", o, **kw)
+    for S, k in ((1, 0), (0, 1), (1, 1), (0, 0)):
+        for bad in (("exited", 3), ("exited", 255), ("killed", 9)):
+            out.append({"S": S, "k": k, "fanout": 32, "cmdtmo": 0, "hosts": [ex(bad), ex(("exited", 0))]})
+            out.append({"S": S, "k": k, "fanout": 1, "cmdtmo": 0, "hosts": [ex(("exited", 0)), ex(("exited", 0)), ex(bad)]})
+        out.append({"S": S, "k": k, "fanout": 32, "cmdtmo": 0, "hosts": [ex(("exited", 0))]})
+    for S, k, bad in ((1, 0, ("exited", 3)), (0, 1, ("killed", 9)), (1, 1, ("exited", 255))):
+        out.append({"S": S, "k": k, "fanout": 32, "cmdtmo": 0, "hosts": [ex(("exited", 0)), ex(bad, close_ms=800)]})
+    for kind, end in (("idle", "d"), ("chatty", "d"), ("chatty", ("e", 0)), ("idle", ("e", 0))):
+        out.append({"S": 1, "k": 0, "fanout": 32, "cmdtmo": 1,
+                    "hosts": [ex(("exited", 0)), ex(("to", 0), tmo={"kind": kind, "end": end})]})
+    out.append({"S": 1, "k": 0, "fanout": 32, "cmdtmo": 1,
+                "hosts": [ex(("exited", 255)), ex(("to", 0), tmo={"kind": "chatty", "end": "d"})]})
+    return out
+
+
+def systematic_lines(magic):
+    """_extract_rc, every quick run: the marker at every position of a line, every boundary code, with and without the
+    final newline, partial / repeated / embedded markers, signs, blanks, CR, NUL, long preceding text"""
+    out = []
+    for pre in (b"", b"a", b"foo", b"foo bar: ", magic[:-1], magic[1:], b"X", b"XX", magic[:2] + b" ", b"x" * 100, b"y" * 4000):
+        for code in (b"0", b"1", b"3", b"9", b"10", b"42", b"127", b"128", b"254", b"255"):
+            out.append(pre + magic + code + b"\n")
+        out.append(pre + magic + b"7")                  # no final newline
+        out.append(pre + magic + b"\n")                 # no digits
+    for num in (b"256", b"999", b"00", b"007", b"-1", b"+3", b" 3", b"3 ", b"3x", b"3\r", b"0x3", b"2147483648", b"4294967299"):
+        out.append(magic + num + b"\n")
+        out.append(b"t" + magic + num + b"\n")
+    out += [magic + b"1\n" + magic + b"2\n", magic + b"5" + magic + b"6\n", b"a" + magic + b"5" + magic + b"6\n",
+            magic + magic + b"\n", b"\0" + magic + b"4\n", b"a\0" + magic + b"4\n", magic + b"4\0\n", magic.lower() + b"4\n",
+            magic[:-1] + b"4\n", b" " + magic + b"8\n", magic + b"8\n\n", b"\n" + magic + b"8\n"]
+    return out
+
+
 def host_stdout(h, magic):
     k, v = h["outcome"]
     if h["chan"] == "raw":
@@ -442,7 +546,7 @@ def run(ctx):
         nx = 1500 if ctx.quick() else 25000
         lines = [b"foo" + magic + b"3\n", magic + b"3\n", b"foo" + magic + b"255\n", b"foo" + magic + b"3",
                  magic, magic + b"\n", b"a" + magic + b"\n", b"", b"\n", magic + magic + b"7\n",
-                 b"x" + magic + b"1" + magic + b"9\n"] + load_corpus("xrc")
+                 b"x" + magic + b"1" + magic + b"9\n"] + load_corpus("xrc") + systematic_lines(magic)
         lines += [gen_line(rng, magic, newline=rng.random() < 0.85) for _ in range(nx)]
         ops = [["xrc " + hexs(l)] for l in lines]
         impl = run_batch([exe], ops, env=env)
@@ -511,8 +615,10 @@ def run(ctx):
                              "exited %s ms later with code %s: the code reported for a host must be the status the command "
                              "actually terminated with" % (ans[0], h[1:].split("_")[0], end[1:]), {"op": "xd " + h, "impl": ans[0]})
         # ---- (b) real dsh() on the scripted transport -----------------------------------------------
-        nd = 350 if ctx.quick() else 6000
-        scns = load_corpus_scn(magic) + [gen_scenario(rng, magic) for _ in range(nd)]
+        nd = 250 if ctx.quick() else 6000
+        sysc = systematic_scenarios()
+        dist["dsh_systematic"] = len(sysc)
+        scns = load_corpus_scn(magic) + sysc + [gen_scenario(rng, magic) for _ in range(nd)]
         if not ctx.quick():
             ex = exhaustive_vectors()
             dist["exhaustive_vectors"] = len(ex)
@@ -520,8 +626,8 @@ def run(ctx):
         raws = [gen_raw_scenario(rng, magic) for _ in range(150 if ctx.quick() else 3000)]
         # time-outs (-u 1): an idle or a CHATTY command (the latter makes the worker notice the expiry itself at the top of
         # its poll loop), dying on SIGTERM or trapping it and returning a code; 1-2 s each, one harness process each
-        tscns = []
-        for _ in range(6 if ctx.quick() else 40):
+        tscns = systematic_timeouts()
+        for _ in range(2 if ctx.quick() else 40):
             n = rng.choice([1, 2, 3])
             hosts = [{"chan": "exec", "outcome": ("exited", rng.choice([0, 0, 3, 255])), "out": b"", "pre": b"", "late": b"",
                       "delay": 0} for _ in range(n)]
@@ -588,7 +694,7 @@ def run(ctx):
         report_bad(ctx, bad, bits, "dsh()")
         # targets canceled before they started (rcmd_create fails -> DSH_CANCELED, the state ^C ^Z leaves behind):
         # their command never ran, so -S must not report 0 ("0 only if every command on every target ran and succeeded")
-        cscn = []
+        cscn = systematic_canceled()
         for _ in range(25 if ctx.quick() else 400):
             n = rng.choice([1, 2, 3, 4])
             hosts = [rng.choice(["x1", "x1", "c1,o-,v0,d0,t0", "c1,o-,v0,d%d,t0" % rng.choice([0, 5]),
@@ -606,13 +712,15 @@ def run(ctx):
         hb = subprocess.run(["gcc", "-O1", "-w", os.path.join(HARNESS, "exit_helper.c"), "-o", helper])
         if repo and hb.returncode == 0:
             pdsh = os.path.join(repo, "src", "pdsh", "pdsh")
-            nc = 70 if ctx.quick() else 900
-            nt = 3 if ctx.quick() else 24
-            nl = 5 if ctx.quick() else 40
-            cs = [gen_cli_scenario(rng, magic, False) for _ in range(nc)] + \
+            nc = 50 if ctx.quick() else 900
+            nt = 1 if ctx.quick() else 24
+            nl = 2 if ctx.quick() else 40
+            syscli = systematic_cli()
+            dist["cli_systematic"] = len(syscli)
+            cs = syscli + [gen_cli_scenario(rng, magic, False) for _ in range(nc)] + \
                  [gen_cli_scenario(rng, magic, True) for _ in range(nt)] + \
                  [gen_late_exit_scenario(rng) for _ in range(nl)]
-            dist["cli_late_exit"] = nl
+            dist["cli_late_exit"] = nl + 3
             argvs = [cli_argv(pdsh, helper, s, magic) for s in cs] + [[pdsh] + r for r in REFUSED]
             with concurrent.futures.ThreadPoolExecutor(max_workers=8) as ex:
                 res = list(ex.map(run_cli, argvs))
